@@ -89,10 +89,78 @@ def run(ctx):
             if len(out.samples) < 4:
                 out.samples.append({'line': line[:600], 'impl': a0, 'model': m[:80] if m else m, 'oracle': want,
                                     'matches': matches, 'effects': [repr(o.effect) for o in objs]})
+    _mutation_during_decision(ctx, out, rng)
     out.rule = ('inquiry drawn first, 1-6 policies aimed at it (string-based, rule-based or mixed store; junk effects; '
                 'context rules; custom tags), asked in 3 insertion orders; non-trivial = matching policies with >=2 '
                 'different effects, or a junk effect on a matching policy, or a matching policy with context rules')
     return out
+
+
+class _MutatingChecker:
+    """delegates to a real checker; at its k-th fits call it deletes one stored policy and adds another one"""
+    def __init__(self, real, k, action):
+        self.real, self.k, self.action, self.calls = real, k, action, 0
+
+    def fits(self, policy, field, what, inquiry=None):
+        self.calls += 1
+        if self.calls == self.k:
+            self.action()
+        return self.real.fits(policy, field, what, inquiry)
+
+
+def _mutation_during_decision(ctx, out, rng):
+    """the store changes while a decision is in flight (here: from inside the decision itself, single-threaded):
+    a matching non-allow policy that is stored during the whole decision must still veto, and an allow answer needs
+    a matching allow policy stored at some point of it.  Concurrent schedules are C14's subject."""
+    from vakt.guard import Guard
+    from vakt.storage.memory import MemoryStorage
+    for _ in range(ctx.budget(250, 8000)):
+        case = polcase.gen_store_case(rng, npol=pick(rng, [3, 4, 5, 6]))
+        try:
+            objs, inq = polcase.build_case(case)
+        except Exception:
+            continue
+        k = case['k']
+        extra = objs[-1]
+        stored = objs[:-1]
+        st = MemoryStorage()
+        for o in stored:
+            st.add(o)
+        victim = rng.randrange(len(stored))
+
+        def action(st=st, victim=stored[victim], extra=extra):
+            st.delete(victim.uid)
+            st.add(extra)
+        ch = _MutatingChecker(polcase.make_checker(k), rng.randint(1, 4), action)
+        try:
+            a = Guard(st, ch).is_allowed(inq)
+        except Exception as e:
+            a = 'escaped:' + type(e).__name__
+        matches = polcase.direct_matches(k, objs, inq)
+        stable_veto = any(m is True and o.effect != 'allow' for i, (o, m) in enumerate(zip(stored, matches))
+                          if i != victim)
+        some_allow = any(m is True and o.effect == 'allow' for o, m in zip(objs, matches))
+        out.evaluations += 1
+        out.count('mutation-during-decision:%s' % a)
+        why = None
+        if a is True and stable_veto:
+            why = 'a matching non-allow policy was stored during the whole decision, yet access was granted'
+        elif a is True and not some_allow:
+            why = 'access granted although no matching allow policy was stored at any point'
+        elif a is False and 'raise' not in matches and ch.calls >= ch.k and not stable_veto and \
+                polcase.oracle_decision(stored, matches[:-1]) is True and \
+                polcase.oracle_decision([o for i, o in enumerate(objs) if i != victim],
+                                        [m for i, m in enumerate(matches) if i != victim]) is True:
+            why = 'access is granted by the policy set before the change and by the set after it, yet it was denied'
+        elif a not in (True, False):
+            why = 'exception escaped'
+        if why:
+            f = Failure('oracle', {'checker': k, 'policies': [repr(p) for p in case['policies']],
+                                   'inquiry': repr(case['inquiry']), 'deleted_index': victim,
+                                   'added_index': len(objs) - 1, 'at_fits_call': ch.k, 'matches': matches}, a, None, why,
+                        'Vakt.C01.decide_veto / decide_iff')
+            f.signature = 'mutation-during-decision'
+            out.failures.append(f)
 
 
 def replay(ctx, rp):
